@@ -27,17 +27,23 @@ ObsInit == [acc |-> <<>>, st |-> <<>>, n |-> 0, viol |-> {}]
 
 V(o, c, name) == IF c THEN o ELSE [o EXCEPT !.viol = @ \cup {[p |-> name, m |-> o.n]}]
 
+(* st = [st : Eff -> result,  per-recipient results of a partial target             *)
+(*       atomic : BOOLEAN,    the target behind the pipeline has no BodyNonAtomic     *)
+(*       body : result]       result of the atomic target's Body                      *)
 ObsTxn(o, st) == [o EXCEPT !.acc = <<>>, !.st = st, !.n = @ + 1]
 ObsAddRcpt(o, r, res) == IF res = "ok" THEN [o EXCEPT !.acc = Append(@, r)] ELSE o
 
 ObsStatuses(o, rw, sts) ==
   LET keys == [i \in 1..Len(sts) |-> sts[i].k]
       accS == {o.acc[i] : i \in 1..Len(o.acc)}
+      p == o.st
       o1 == V(o,  \A i \in 1..Len(sts) : sts[i].k \in accS, "StatusUnderForeignAddress")
-      o2 == V(o1, \A x \in accS : Count(keys, x) >= 1, "SuppliedAddressNotCovered")
+      \* an atomic target that succeeded has nothing to report (a missing result means success)
+      o2 == V(o1, (p.atomic /\ p.body = "ok") \/ \A x \in accS : Count(keys, x) >= 1, "SuppliedAddressNotCovered")
       o3 == V(o2, \A x \in accS : Count(keys, x) <= SumLen(rw, o.acc, x), "TooManyStatuses")
       o4 == V(o3, \A i \in 1..Len(sts) : sts[i].k \in accS =>
-                     \E j \in 1..Len(rw[sts[i].k]) : sts[i].v = o.st[rw[sts[i].k][j]],
+                     IF p.atomic THEN sts[i].v = p.body /\ p.body # "ok"
+                     ELSE \E j \in 1..Len(rw[sts[i].k]) : sts[i].v = p.st[rw[sts[i].k][j]],
               "ResultOfAnotherRecipient")
   IN o4
 =============================================================================
